@@ -199,6 +199,11 @@ LEADS = [b'\r\r\n', b'\x01\r\r\n001\r\r\nISMD01 OKPR 120000\r\r\n', b'BUF', b'77
 def gen_frame(ch, opts):
     case = gmsg.gen_case(ch, opts)
     ed = case.meta['edition']
+    if ch.bool(1, 5):
+        # the stop signature's octets inside the message, octet aligned: in the local-use octets of section 2
+        case.meta['section2'] = ch.choice([b'7777', b'RDB7777 ', b'77777', b'x7777BUFR', b'7777' * 3])
+        case.features.add('section2')
+        gmsg.build_bytes(case)
     surplus = {}
     for k in (1, 2, 4):
         if k == 2 and case.meta.get('section2') is None:
@@ -285,6 +290,23 @@ def check_frame(fc):
             if d is not None:
                 out.fail('decoded values differ with [%s]' % tag, subset=i, index=d[0], got=d[1], expected=d[2])
                 break
+    # the same through the stream scanner (the entry point behind decode -m, info -m, split): the first message it
+    # delivers is this message, with exactly its declared extent, whatever its sections hold and whatever follows
+    if b'7777' in b[:-4]:
+        out.classes.append('stop_signature_octets_inside_the_message')
+    for kw in ({}, {'info_only': True}):
+        tag = 'scan' + ('/info_only' if kw else '')
+        o3 = sut.call(lambda: next(sut.generate_bufr_message(decoder(), fc.lead + b + fc.tail, **kw)))
+        if not o3.ok:
+            out.fail('%s: scanning the input for its first message raised %s@%s' % (tag, o3.exc_type, o3.frame), error=o3.msg,
+                     section2=case.meta.get('section2'))
+            continue
+        m3 = o3.value
+        if m3.serialized_bytes != b:
+            out.fail('%s: serialized_bytes of the delivered message is not exactly the span from BUFR to 7777' % tag,
+                     n_got=len(m3.serialized_bytes), n=len(b))
+        if m3.length.value != len(b):
+            out.fail('%s: length.value differs from the declared total' % tag, got=m3.length.value)
     if fc.shorten:
         k, d = fc.shorten
         out.classes.append('shortened_section_%d' % k)
